@@ -6,13 +6,18 @@ MANIFEST = {
     "modules": ["Memory", "Run"],
     "text": "Unit level: Memory.tla models individuals as (solution, cached objective) with every public way to touch "
             "them (new / unevaluated / clone / solution_mut with and without write / as_solutions_mut / into_solutions + "
-            "into_individuals / evaluate_with / set_objective / evaluation step / best / archive); TLC checks the invariant "
+            "into_individuals / evaluate_with / set_objective / evaluation step / best / archive, and USER-WRITTEN operators "
+            "behind the helper combinators mutation() / selection() / replacement() that fail midway -- after or before "
+            "having written the solution they were handed; whether a failing execution hands the population back or "
+            "loses it is left open, whoever is still in the state and was written must be unevaluated); TLC checks the invariant "
             "Fresh (evaluated => objective = F[solution], over population, best and archive) and the action properties "
             "MutableAccessClears / CopyKeepsPair exhaustively for the bounded constants; a transition tour and random "
             "histories are replayed on real Individual<P> values and validated by TLC. Template level: all 21 shipped "
             "templates run over parameter grids x seeds under the step observer; after EVERY component of every block the "
             "harness compares, for every individual anywhere in the state (population stack, best-so-far, archive, swarm "
-            "memories), the cached objective bit-for-bit with a fresh pure evaluation, and TLC (Run.tla, clause C05) "
+            "memories), the cached objective bit-for-bit with a fresh pure evaluation (every shipped variation component also on "
+            "objectives that depend on WHERE a gene sits -- weighted zeros, weighted completion times of a schedule: not even "
+            "rotation invariant -- on containers of 2, 3 and 6 elements), and TLC (Run.tla, clause C05) "
             "requires the stale count to be 0 in every recorded step.",
     "technique": "TLA+ spec + TLC model checking + TLC trace validation (unit tours; step-observer traces of all template runs)",
     "design_ref": "DESIGN.md §6 C05, §4.1",
@@ -27,7 +32,8 @@ RULE = ("cases = (i) individual-level operations executed on real individuals fr
 def run(ctx):
     q = ctx.quick
     memlib.unit(ctx, ["new", "new_unevaluated", "clone", "clone_from", "solution_mut", "solution_mut_peek", "as_solutions_mut",
-                      "round_trip", "evaluate_with", "set_objective", "evaluate"])
+                      "round_trip", "evaluate_with", "set_objective", "evaluate",
+                      "user_mutation", "user_mutation_v", "user_select_replace"])
     runlib.run_templates(ctx, ["C05"], seeds=[ctx.seed, ctx.seed + 1] if q else list(range(ctx.seed, ctx.seed + 12)),
                          iters=[3] if q else [1, 8, 30])
     # differential evolution with several difference vectors on clamped (coinciding) individuals needs a few passes
